@@ -88,7 +88,10 @@ class BuiltinClass:
             "NotImplementedError": "RuntimeError", "RuntimeError": "Exception", "OSError": "Exception",
             "FileNotFoundError": "OSError", "ZeroDivisionError": "ArithmeticError", "ArithmeticError": "Exception",
             "OverflowError": "ArithmeticError", "AssertionError": "Exception", "StopIteration": "Exception",
-            "Exception": "BaseException", "BaseException": None, "UnicodeDecodeError": "ValueError"}
+            "Exception": "BaseException", "BaseException": None, "UnicodeDecodeError": "ValueError",
+            "KeyboardInterrupt": "BaseException", "SystemExit": "BaseException", "GeneratorExit": "BaseException",
+            "DuckDBError": "Exception", "ExternalError": "Exception", "BodyError": "Exception",
+            "MemoryError": "Exception", "PermissionError": "OSError"}
 
     def __repr__(self) -> str:
         return f"<builtin class {self.name}>"
@@ -307,8 +310,10 @@ class Engine:
         elif isinstance(st, ast.Import):
             for a in st.names:
                 nm = a.asname or a.name.split(".")[0]
-                target = self.resolve_module(a.name)
-                env[nm] = ModuleV(target, False) if target else ModuleV(a.name if a.asname else a.name.split(".")[0], True)
+                # `import a.b.c` binds the TOP package; `import a.b.c as x` binds the submodule
+                dotted = a.name if a.asname else a.name.split(".")[0]
+                target = self.resolve_module(dotted)
+                env[nm] = ModuleV(target, False) if target else ModuleV(dotted, True)
         elif isinstance(st, ast.FunctionDef):
             env[st.name] = FuncV(rel, st.name, st)
         elif isinstance(st, ast.ClassDef):
@@ -791,6 +796,8 @@ class Frame:
             raise ContinueSignal()
         elif isinstance(st, ast.Try):
             self.exec_try(st)
+        elif isinstance(st, ast.With):
+            self.exec_with(st, 0)
         elif isinstance(st, (ast.FunctionDef, ast.ClassDef)):
             if isinstance(st, ast.FunctionDef):
                 self.locals[st.name] = FuncV(self.rel, (self.fn.qualname + "." if self.fn else "") + st.name, st)
@@ -855,6 +862,54 @@ class Frame:
         finally:
             if st.finalbody:
                 self.exec_block(st.finalbody)
+
+    def exec_with(self, st: ast.With, i: int) -> None:
+        """`with cm() as v: BODY` for @contextmanager generator functions of the source tree: the generator body is
+        interpreted with BODY as the continuation of its `yield` (an exception of BODY is thrown at the yield, a
+        normal end resumes after it) - the contextlib protocol.  Objects with a `_pyvc_with` hook model externals."""
+        if i == len(st.items):
+            self.exec_block(st.body)
+            return
+        item = st.items[i]
+        ce = item.context_expr
+        cm_fn = None
+        if isinstance(ce, ast.Call):
+            f = self.eval(ce.func)
+            if isinstance(f, FuncV) and any(
+                    (isinstance(d, ast.Name) and d.id == "contextmanager") or
+                    (isinstance(d, ast.Attribute) and d.attr == "contextmanager") for d in f.node.decorator_list):
+                cm_fn = f
+        if cm_fn is not None:
+            assert isinstance(ce, ast.Call)
+            args = [self.eval(a) for a in ce.args]
+            kwargs = {k.arg: self.eval(k.value) for k in ce.keywords if k.arg}
+            outer = self
+
+            def on_yield(value: Any) -> Any:
+                if item.optional_vars is not None:
+                    outer.assign(item.optional_vars, value)
+                try:
+                    outer.exec_with(st, i + 1)
+                except ReturnSignal as r:
+                    r._from_with_body = True  # type: ignore[attr-defined]
+                    raise
+                return None
+
+            fr = Frame(self.eng, cm_fn.rel, {}, cm_fn)
+            fr.on_yield = on_yield  # type: ignore[attr-defined]
+            fr.bind_params(cm_fn.node, args, kwargs)
+            self.eng.inlined.add(f"{cm_fn.rel}:{cm_fn.qualname}")
+            try:
+                fr.exec_block(cm_fn.node.body)
+            except ReturnSignal as r:
+                if getattr(r, "_from_with_body", False):
+                    raise
+            return
+        cm = self.eval(ce)
+        hook = getattr(cm, "_pyvc_with", None)
+        if hook is None:
+            raise OutsideSubset(f"with over {type(cm).__name__} (line {st.lineno})")
+        hook(self, st, i)
 
     def exc_isinstance(self, exc: Any, cls: Any) -> bool:
         c = exc.cls if isinstance(exc, ObjV) else None
@@ -1037,6 +1092,12 @@ class Frame:
             v = self.eval(e.value)
             self.assign(e.target, v)
             return v
+        if isinstance(e, ast.Yield):
+            v = self.eval(e.value) if e.value is not None else None
+            cb = getattr(self, "on_yield", None) or getattr(eng, "default_on_yield", None)
+            if cb is None:
+                raise OutsideSubset("yield outside a modelled context manager")
+            return cb(v)
         raise OutsideSubset(f"expression {type(e).__name__}")
 
     def eval_elts(self, elts: Sequence[ast.expr]) -> List[Any]:
@@ -1101,6 +1162,9 @@ class Frame:
         raise OutsideSubset(f"iteration over {type(it).__name__} (symbolic collections need a loop contract)")
 
     def to_str(self, x: Any, spec: Any = None) -> Any:
+        hook = getattr(x, "_pyvc_str", None)
+        if hook is not None and spec is None:
+            return hook(self.eng)
         if spec is not None:
             sp = self.eval(spec)
             if isinstance(x, int) and not isinstance(x, bool) and isinstance(sp, str):
@@ -1380,7 +1444,16 @@ class Frame:
             return Opaque(f"{obj.why}.{name}")
         if isinstance(obj, ModuleV):
             if obj.external:
-                return ExternalV(f"{obj.name}.{name}")
+                full = f"{obj.name}.{name}"
+                if full in eng.external_values:
+                    return eng.external_values[full]
+                return ExternalV(full)
+            # a submodule of a package (vtlengine.Exceptions) takes precedence over names re-exported by __init__
+            if obj.name.endswith("__init__.py"):
+                pkg = ".".join(["vtlengine"] + obj.name.split("/")[:-1])
+                sub = eng.resolve_module(pkg + "." + name)
+                if sub is not None:
+                    return ModuleV(sub, False)
             return eng.lookup_global(obj.name, name)
         if isinstance(obj, ExternalV):
             full = f"{obj.name}.{name}"
